@@ -10,7 +10,7 @@ pub fn info() -> PropInfo {
     PropInfo {
         id: "C14",
         level: "exploration",
-        rule: "generated multi-thread histories: threads 1..16 (real OS threads) x issuances per thread x {one issuer per thread, one shared behind a mutex} x {same claims every time, varying claims} x decoys x format, AllLevels so every node draws a salt; invariants over the whole run: every salt base64url-decodes to >= 16 bytes, all salts pairwise distinct, all decoy digests pairwise distinct, every disclosure is referenced by exactly one embedded digest recomputed as SHA-256 of its base64url text, each of the first 128 salt bits within 8 sigma of 1/2. Non-trivial: run with >= 1000 salts. Distinct: hash of the case JSON. evaluations counts issuances; coverage.sums gives the number of salts / decoys compared.",
+        rule: "generated multi-thread histories: threads 1..16 (real OS threads) x issuances per thread x {one issuer per thread, one shared behind a mutex} x {same claims every time, varying claims} x decoys x format x strategy {AllLevels every time (every node draws a salt), rotating AllLevels / TopLevel / NoSDClaims, a Custom path list per claim set} x holder key {none, the same key every time, rotating none / EC / Ed25519}; invariants over the whole run: every salt base64url-decodes to >= 16 bytes, all salts pairwise distinct, all decoy digests pairwise distinct, every disclosure is referenced by exactly one embedded digest recomputed as SHA-256 of its base64url text, each of the first 128 salt bits within 8 sigma of 1/2. Non-trivial: run with >= 1000 salts. Distinct: hash of the case JSON. evaluations counts issuances; coverage.sums gives the number of salts / decoys compared.",
         assumptions: &[
             "interleavings are those the OS scheduler produces (sampled, not enumerated); rand's thread-local generator cannot be put under a controlled scheduler",
             "'unpredictable' is tested only through statistical symptoms (duplicates, short length, fixed or biased bits)",
@@ -27,8 +27,18 @@ pub fn strategy_for(tier: Tier) -> BoxedStrategy<Case> {
         Tier::Quick => 4_000u32..12_000,
         Tier::Thorough => 20_000u32..60_000,
     };
-    (1u32..=16, total, any::<bool>(), any::<bool>(), any::<bool>(), fmt_strategy(), vec(claims_strategy(ClaimCfg::SHORT_F64), 1..4), prop_oneof![3 => Just(sdjwt_model::keys::Alg::HS256), 2 => Just(sdjwt_model::keys::Alg::EdDSA), 1 => Just(sdjwt_model::keys::Alg::ES256)], any::<bool>())
-        .prop_map(|(threads, total, shared_issuer, same_claims, decoys, fmt, claims, alg, alternate_format)| C14Case {
+    (1u32..=16, total, any::<bool>(), any::<bool>(), any::<bool>(), fmt_strategy(), vec(claims_strategy(ClaimCfg::SHORT_F64), 1..4), prop_oneof![3 => Just(sdjwt_model::keys::Alg::HS256), 2 => Just(sdjwt_model::keys::Alg::EdDSA), 1 => Just(sdjwt_model::keys::Alg::ES256)], any::<bool>(), (0u8..4, 0u8..4, vec(choices_strategy(), 4)))
+        .prop_map(|(threads, total, shared_issuer, same_claims, decoys, fmt, claims, alg, alternate_format, (sm, hm, chs))| C14Case {
+            strat_mode: [0, 1, 1, 2][sm as usize],
+            holder_mode: [0, 0, 1, 2][hm as usize],
+            custom: claims
+                .iter()
+                .enumerate()
+                .map(|(k, c)| match sdjwt_model::tree::mark(c, &sdjwt_model::tree::Strat::NoSD) {
+                    Ok(t) => sdjwt_model::derive::derive_paths(&t, &mut sdjwt_model::derive::Choices::new(&chs[k % chs.len()]), HONEST_PATHS),
+                    Err(_) => vec![],
+                })
+                .collect(),
             alg,
             alternate_format,
             threads,
@@ -43,5 +53,5 @@ pub fn strategy_for(tier: Tier) -> BoxedStrategy<Case> {
 }
 
 pub fn plan(tier: Tier) -> Plan<Case> {
-    Plan { strategy: strategy_for(tier), check, shrink_iters: 16, decode_bytes: None, watchdog_secs: 1800, cases: match tier { Tier::Quick => 32, Tier::Thorough => 320 } }
+    Plan { strategy: strategy_for(tier), check, shrink_iters: 16, decode_bytes: None, watchdog_secs: 1800, cases: match tier { Tier::Quick => 48, Tier::Thorough => 400 } }
 }
